@@ -149,6 +149,20 @@ def run(unit, em):
                 txt = unit.text(n, 90)
                 if a == {'L'} and b == {'R'}:
                     em.ok(n, txt, 'components come from the first / second operand', 'prodside')
+                    # POSAGREE: children of two rules are paired position by position
+                    def index_of(e):
+                        e = strip(e)
+                        if e is not None and e['k'] == 'CXXOperatorCallExpr' and e.get('op') == '[]' and len(e.get('args', [])) == 2:
+                            return unit.text(strip(e['args'][1]), 0)
+                        if e is not None and e['k'] == 'CXXMemberCallExpr' and method_name(e) == 'at' and e.get('args'):
+                            return unit.text(strip(e['args'][0]), 0)
+                        return None
+                    ia, ib = index_of(n['args'][0]), index_of(n['args'][1])
+                    if ia is not None and ib is not None:
+                        if ia == ib:
+                            em.ok(n, txt, 'both children taken at position %s' % ia, 'posagree')
+                        else:
+                            em.violation(n, txt, 'children of the two rules are paired at different positions (%s vs %s): the product rule does not correspond to a pair of runs' % (ia, ib), 'posagree')
                 elif not a or not b:
                     em.unknown(n, txt, 'operand side of a component not resolved (%s, %s)' % (set(a), set(b)), 'prodside')
                 else:
